@@ -1136,3 +1136,43 @@ def gen_flavours(rng, profile):
                 if r_:
                     S.append(r_.pop(0))
     return b.merge()
+
+
+ODD_FILES = ["haschildren_childless", "haschildren_childless", "empty", "inconsistent-types", "duplicate-const",
+             "imported-AT_decl_file.o", "attribute-die-cooked-no-dup.o", "dwz-partial4-1.o", "testfile_const_type", "const_value_block.o"]
+ODD_REFS = ["@AT_type", "@AT_type", "@AT_sibling", "@AT_specification", "@AT_abstract_origin", "@AT_import", "@AT_type @AT_type", "child", "parent", ""]
+ODD_PREDS = ["!TAG_base_type", "?TAG_pointer_type", "!TAG_typedef", "!TAG_subprogram", "?TAG_base_type", "!AT_name", "?AT_name", "?haschildren",
+             "!haschildren", "!root", "?root", "", "", "?(label)", "?(offset)", "!(name)", "(|E| E)"]
+ODD_TAILS = ["abbrev code", "abbrev label", "abbrev", "abbrev attribute label", "abbrev offset", "abbrev ?haschildren", "label", "offset",
+             "parent offset", "parent", "root offset", "attribute label", "attribute value", "attribute", "child offset", "child", "name",
+             "\"%s\"", "@AT_name", "@AT_type offset", "high", "low", "address", "unit offset", "[child] length", "[attribute] length",
+             "raw attribute label", "cooked child offset", "abbrev entry offset", "abbrev attribute form"]
+
+
+def gen_odd_file(rng, profile):
+    """The repo's deliberately odd sample files (a DIE whose children flag lies,
+    a DW_AT_type that points at a null entry, an empty file, inconsistent
+    types, ...) under chains of the shape: reach a DIE by reference, look at
+    it in place, then ask for something that needs more of it."""
+    b = Builder(rng, profile)
+    plan = b.plan
+    common_knobs(rng, plan)
+    if profile != "C13":
+        plan["knobs"]["leakcheck"] = 0
+    f = rng.choice(ODD_FILES)
+    v = b.v()
+    b.setup.append(P.step(0, "OPEN", v, P.hexenc("/sim/0/" + f), rng.choice(["cooked", "cooked", "raw"])))
+    i = b.i()
+    b.setup.append(P.step(0, "MKIN", i, "V:%d" % v))
+    nclients = rng.choice([1, 1, 2])
+    for c in range(nclients):
+        b.scripts[c] = []
+    for _ in range(rng.choice([2, 3, 4])):
+        head = rng.choice(["entry", "entry", "raw entry", "unit root", "unit entry", "entry child"])
+        text = " ".join(w for w in [head, rng.choice(ODD_REFS), rng.choice(ODD_PREDS), rng.choice(ODD_TAILS)] if w)
+        c = rng.randrange(nclients)
+        q = b.q()
+        b.scripts[c].append(P.step(c, "PARSE", q, b.prog(text, 0)))
+        st, _ = task_steps(b, c, q, i, pull_pattern(rng))
+        b.scripts[c] += st
+    return b.merge()
